@@ -168,6 +168,11 @@ impl RateLimiterActor {
     }
 }
 
+/// Verification hook (compiled only with `--cfg throttlecrab_verif`): number of messages the
+/// actor loop has taken from its queue
+#[cfg(throttlecrab_verif)]
+pub static VERIF_DEQUEUED: std::sync::atomic::AtomicU64 = std::sync::atomic::AtomicU64::new(0);
+
 /// Internal enum to handle different store types
 /// Verification hooks (compiled only with `--cfg throttlecrab_verif`): the actor loop as an
 /// unspawned future, so that a test scheduler decides when it is polled
@@ -267,6 +272,8 @@ async fn run_actor(
     _metrics: Arc<Metrics>,
 ) {
     while let Some(msg) = rx.recv().await {
+        #[cfg(throttlecrab_verif)]
+        VERIF_DEQUEUED.fetch_add(1, std::sync::atomic::Ordering::SeqCst);
         match msg {
             RateLimiterMessage::Throttle {
                 request,
